@@ -339,6 +339,7 @@ struct lkcd_priv {
 	char format[MAX_FORMAT_NAME];
 };
 
+static void lkcd_attr_cleanup(struct attr_dict *dict);
 static void lkcd_cleanup(struct kdump_shared *shared);
 
 static struct pfn_block **
@@ -989,6 +990,7 @@ open_common(kdump_ctx_t *ctx, void *hdr)
 	return KDUMP_OK;
 
   err_free:
+	lkcd_attr_cleanup(ctx->dict);
 	lkcd_cleanup(ctx->shared);
 	return ret;
 }
@@ -1056,6 +1058,8 @@ lkcd_attr_cleanup(struct attr_dict *dict)
 {
 	struct lkcd_priv *lkcdp = dict->shared->fmtdata;
 
+	if (!lkcdp)
+		return;
 	attr_remove_override(dgattr(dict, GKI_page_size),
 			     &lkcdp->page_size_override);
 	attr_remove_override(dgattr(dict, GKI_max_pfn),
